@@ -35,6 +35,8 @@ pub struct Policy {
     pub spaces: bool,
     /// explicit pool index for the k-th literal of the sequence (exhaustive assignment); falls back to rotation
     pub fixed: Vec<usize>,
+    /// when set: index of the keyword (in the evaluator's sorted list of that class) used for the first function token
+    pub fn_first: Option<usize>,
 }
 
 pub fn reveal_lits(e: &str) -> Vec<String> {
@@ -52,7 +54,7 @@ pub fn reveal_sups() -> Vec<String> { ["2", "3", "1", "0", "4"].iter().map(|s| s
 /// functions whose value is exact (or identically rounded by definition) on the reveal pools
 pub fn exact_fns(e: &str) -> Vec<String> {
     let v: &[&str] = match e {
-        "f64" | "num" => &["Abs", "Floor", "Ceil", "Truncate", "Round", "Sign", "Mod", "Pow", "Min", "Max", "Med", "Avg"],
+        "f64" | "num" => &["Abs", "Floor", "Ceil", "Truncate", "Round", "Sign", "Sqrt", "Mod", "Pow", "Min", "Max", "Med", "Avg"],
         "dec" => &["Abs", "Floor", "Ceil", "Truncate", "Round", "Sign", "Mod", "Min", "Max", "Med", "Avg"],
         "i64" => &["Abs", "Sign", "Mod", "Pow", "Min", "Max", "Med", "Avg", "Gcd", "Lcm"],
         _ => &["Abs", "Pow", "Sqrt", "Exp", "Ln", "Log", "Root", "Sin", "Cosh"],
@@ -62,10 +64,10 @@ pub fn exact_fns(e: &str) -> Vec<String> {
 
 impl Policy {
     pub fn reveal(e: &str, offset: usize) -> Policy {
-        Policy { lits: reveal_lits(e), sups: reveal_sups(), fns_allowed: exact_fns(e), offset, spaces: false, fixed: vec![] }
+        Policy { lits: reveal_lits(e), sups: reveal_sups(), fns_allowed: exact_fns(e), offset, spaces: false, fixed: vec![], fn_first: None }
     }
     pub fn all_fns(e: &str, offset: usize) -> Policy {
-        Policy { lits: reveal_lits(e), sups: reveal_sups(), fns_allowed: vec![], offset, spaces: false, fixed: vec![] }
+        Policy { lits: reveal_lits(e), sups: reveal_sups(), fns_allowed: vec![], offset, spaces: false, fixed: vec![], fn_first: None }
     }
 }
 
@@ -114,7 +116,7 @@ pub fn render(v: &Vocab, e: &str, kinds: &[String], pol: &Policy) -> Option<Rend
                 let ks: Vec<_> = v.keywords_of(e, k).into_iter()
                     .filter(|kw| pol.fns_allowed.is_empty() || pol.fns_allowed.contains(&kw.func)).collect();
                 if ks.is_empty() { return None; }
-                let kw = ks[nfn % ks.len()];
+                let kw = match pol.fn_first { Some(i) if nfn == pol.offset => ks[i % ks.len()], _ => ks[nfn % ks.len()] };
                 nfn += 1;
                 asg.fns.insert(p, kw.func.clone());
                 kw.name.clone()
